@@ -75,9 +75,11 @@ def r15_1(ctx):
             x = leak[0]
             what = "the next translate_* call (next input)" if any(x == tn for tn, _, _ in v.translate) else ("main's return" if x in sup.exits() else "a process::exit")
         ctx.ob(f"{key}:flush-before-next", not leak, v.site(n), "flush intervenes on every success path" if not leak else f"a success path reaches {what} without Translator::flush")
+        # (what the properties ask for is the status: after a failure the run never ends with 0. Whether xt stops at
+        # the first failing input or reports it and goes on — a `failed` flag tested after the loop — is its own
+        # business; the path-sensitive reach decides both forms)
         rr, terms, ok = _fail_only_exit(v, n, 1)
-        ok = ok and not any(tn in rr for tn, _, _ in v.translate)
-        ctx.ob(f"{key}:failure-exits-1", ok, v.site(n), "a failed translation always ends in exit(1)" if ok else "after a failed translation the run can go on with the next input or return from main")
+        ctx.ob(f"{key}:failure-exits-1", ok, v.site(n), "a failed translation always ends in exit(1)" if ok else "after a failed translation the run can return from main (status 0) or end with another status")
     ctx.ob("flush-site-present", len(flush_nodes) >= 1, site(v.main), f"{len(flush_nodes)} Translator::flush call(s) reachable from main")
     errw = _xt_error_nodes(v)
     for n, b, t in v.flush:
@@ -190,6 +192,17 @@ def r13_1(ctx):
         ok = bool(errw) and n not in v.ps.reach(removed_nodes=errw)
         msg = [tmpl for w, s_, tmpl, _ in v.writes() if w in errw and (sup.dominates(w, n) or w[0] == n[0])]
         ctx.ob(f"exit1:message:{_exit_key(v, n)}", ok, v.site(n), f"preceded by stderr line {msg[-1]!r}" if ok else "exit(1) without an 'xt error' line on stderr")
+    # (d') and the converse: once an 'xt error' line has been written, the run does not end with status 0 (a failure that
+    # is reported and then forgotten: `report!(..); break;` without setting the flag that the final exit(1) tests)
+    for k_, w in enumerate(sorted(errw, key=str)):
+        r_ = v.reach(("node", w))
+        terms_ = v.ends(r_)
+        # (the code may be computed from the failure value, `exit(self.exit_code())`: what must not happen is a return
+        # from main or an exit whose code can be 0; which of 1 and 2 it is, the other obligations decide)
+        # (a write site that no path state reaches — one instantiation of a helper that is never used that way — has no
+        # ends at all, and nothing to answer for)
+        ok_ = all(v.is_exit(x, None, r_.states.get(x)) and 0 not in v.exit_codes(x, r_.states.get(x)) for x in terms_)
+        ctx.ob(f"error-line-ends-in-failure-status:{k_}", ok_, v.site(w), "every path from this 'xt error' line ends in process::exit with a failure status" if ok_ else "an 'xt error' line is written and the run can still return from main (status 0)")
     # (e) every fallible step diverges to exit(1) with a message naming the input
     fallible = [("open", n, t) for n, b, t in v.file_open] + [("translate:" + _variant_key(t), n, t) for n, b, t in v.translate] + [("flush", n, t) for n, b, t in v.flush]
     ctx.ob("fallible-steps", len(fallible) >= 3, site(v.main), f"{len(fallible)} fallible step(s): File::open, translate_*, flush")
@@ -198,7 +211,6 @@ def r13_1(ctx):
         inspected, starts = v.err_starts(n, t)
         ctx.ob(f"fail:{kind}:inspected", inspected, v.site(n), "result is matched on" if inspected else "result is never inspected")
         r, terms, ok = _fail_only_exit(v, n, 1)
-        ok = ok and not any(tn in r for tn, _, _ in v.translate)
         ctx.ob(f"fail:{kind}:diverges-exit-1", ok, v.site(n), "after this step fails every path ends in exit(1)" if ok else "after this step fails the run can go on or return (status 0 with a failed input)")
         if kind != "flush":
             named_nodes = [w for w, tmpl, dts in named_w if w in r and tmpl.startswith("xt error in ") and any(vocab.bin_vocab(ctx.facts)["path"]["path"] in ty or "Path" in ty for _, ty in dts)]
@@ -215,7 +227,22 @@ def r13_1(ctx):
                     if cn_ in r and cf_.get("local") and any(is_place(a_) and (pty in cb_.local_ty(a_["p"]["l"]) or "std::path::Path" in cb_.local_ty(a_["p"]["l"])) for a_ in ct_["args"]):
                         gives_path.append(cn_)
                 named = bool(in_line) and _fail_always_through(v, n, in_line) and bool(gives_path) and _fail_always_through(v, n, gives_path)
-            ctx.ob(f"fail:{kind}:names-input", named, v.site(n), "message is 'xt error in <input>: ...'" if named else "failure message does not name the offending input")
+            how_named = "message is 'xt error in <input>: ...'"
+            if not named and terms and named_nodes and kind.startswith("translate"):
+                # `let flushed = translator.flush(); if let Err(err) = result { if let Err(flush_err) = flushed { bail!(flush_err) }
+                # bail_path!(path, err) }`: when the output fails as well, that failure is the one reported, and it
+                # does not belong to an input. Every other path from the failed translation names the input.
+                flush_fail = set()
+                for fn_, fb_, ft_ in v.flush:
+                    if fn_ in r:
+                        _, fstarts = v.err_starts(fn_, ft_)
+                        flush_fail |= {v.start_node(s_) for s_ in fstarts}
+                if flush_fail:
+                    r2 = v.fail_reach(n, removed_nodes=set(named_nodes) | flush_fail)
+                    if not v.ends(r2):
+                        named = True
+                        how_named = "message is 'xt error in <input>: ...' unless flushing the output failed too (then that failure, which is not an input's, is reported)"
+            ctx.ob(f"fail:{kind}:names-input", named, v.site(n), how_named if named else "failure message does not name the offending input")
 
 
 def cliview_err_ty(ty):
@@ -887,6 +914,50 @@ def _detect_only_on_none(ctx):
 @rule("R05.7", 2, "format detection (and its look-ahead of up to the TOML cap) runs only when no source format was given: an explicit format streams from the first byte", ["C05", "C14"])
 def r05_7(ctx):
     _detect_only_on_none(ctx)
+
+
+@rule("R14.6", 2, "a source format that was given is honoured for every input: with `Some(format)` the library's translate step cannot return success without having handed the input to that format's entry point (no input-dependent shortcut in front of the dispatch: an 'empty input' or 'blank input' guard belongs on the detection arm)", ["C14", "C06", "C03", "C02"])
+def r14_6(ctx):
+    lib = ctx.lib
+    eps = common.input_entry_points(ctx.facts)
+    ep_ids = {b.id for b in eps.values()}
+    for fmt_ in eps:
+        ep_ids |= {b.id for b in common.input_entry_delegators(ctx.facts, fmt_)}
+    n = 0
+    for e in lib.bodies:
+        if e.raw["def_kind"] == "Closure":
+            continue
+        params = [k for k in range(1, e.nargs + 1) if "Option<Format>" in e.local_ty(k) or "Option<crate::Format>" in e.local_ty(k)]
+        if not params:
+            continue
+        sup = Super(lib, e, depth=3, follow=lambda f_: (f_.get("resolved") or f_.get("def")) not in ep_ids)
+        calls = [nn for nn, _, tt in sup.calls() if ((fn_of(tt) or {}).get("resolved") or (fn_of(tt) or {}).get("def")) in ep_ids]
+        if not calls:
+            continue
+        n += 1
+        ps = PathSens(sup, payloads=False)
+        start = {((), k): ("var", 1) for k in params}
+        reached = ps.explore([(sup.entry, start)], removed_nodes=set(calls))
+        # returns of the function itself that can be reached without an entry-point call, and can be Ok
+        leaks = []
+        for x in sup.exits():
+            if x not in reached:
+                continue
+            sts = reached[x] if isinstance(reached, dict) else []
+            can_ok = True
+            if sts:
+                can_ok = False
+                for f_ in sts:
+                    v_ = f_.get(((), 0)) if isinstance(f_, dict) else None
+                    if not (isinstance(v_, tuple) and v_[0] == "var" and v_[1] == 1):
+                        can_ok = True
+            if can_ok:
+                leaks.append(x)
+        ok = not leaks and not ps.overflow
+        ctx.ob(f"explicit-format-reaches-its-parser:{e.name}", ok, sup.site(leaks[0]) if leaks else site(e),
+               f"with a format given, every successful return of `{e.name}` has passed one of the {len(calls)} entry-point call(s)" if ok else
+               f"with a format given, `{e.name}` can return Ok without handing the input to the format's parser: an input-dependent shortcut (empty / blank input) sits in front of the dispatch and silences inputs that are valid in the given format (an empty TOML document, MessagePack made of the bytes 0x09 0x0a 0x0d 0x20)")
+    ctx.ob("dispatch-functions", n >= 1, "lib", f"{n} function(s) taking Option<Format> and calling the input entry points")
 
 
 def _from_field_is_dash_f(binc, parse_fn):
